@@ -135,9 +135,69 @@ def obs_sign(e, key):
                lambda i: ['%d=%d' % (i, int(cint.signed(t)) * 10 + sizeof(t))], key + '|type', 'typeof ' + txt)
 
 
-def gen_grid(ctx, V, rng, npairs):
+def bitfield_leaves(rng):
+    """Bit-field operands: a bit-field whose values all fit in an int takes part in arithmetic as an int (C11 6.3.1.1p2), whatever its declared
+    signedness.  Returns [(leaf expression of the promoted type, declaration text, description)]; declared types wider than int are left out
+    (implementation-defined, gcc and clang differ)."""
+    res = []
+    k = 0
+    for (cn, sg, maxw) in (('int', True, 32), ('unsigned', False, 32), ('unsigned short', False, 16), ('short', True, 16), ('unsigned char', False, 8), ('signed char', True, 8), ('_Bool', False, 1)):
+        for w in sorted({1, 2, 3, 7, 8, 15, 16, 24, 31, 32} & set(range(1, maxw + 1))):
+            if cn == '_Bool' and w != 1:
+                continue
+            lo, hi = (-(1 << (w - 1)), (1 << (w - 1)) - 1) if sg else (0, (1 << w) - 1)
+            for v in sorted({lo, hi, 0, 1 if hi >= 1 else 0, hi // 2, lo // 2, rng.randrange(lo, hi + 1)}):
+                k += 1
+                nm = 'bfo%d' % k
+                # the promoted type: int unless the field is a full-width unsigned int
+                pt = 'u32' if (not sg and w == 32 and cn == 'unsigned') else 'i32'
+                decl = 'static struct { char lead; %s f : %d; unsigned tail : 3; } %s = { 1, %d, 5 };' % (cn, w, nm, v)
+                res.append((leaf('%s.f' % nm, pt, v), decl, '%s:%d' % (cn, w)))
+    return res
+
+
+def gen_bitfield_cells(V, rng, npairs):
     obs = []
-    cells = 0
+    cells = set()
+    leaves = bitfield_leaves(rng)
+    for (lf, decl, what) in leaves:
+        pre = (lambda i, decl=decl: decl)
+        first = True
+
+        def add(o, pre=pre):
+            nonlocal first
+            if o is None:
+                return
+            # every observation carries the declaration of its object; a translation unit emits each distinct declaration once
+            o.pre = pre
+            obs.append(o)
+        for op in UNOPS:
+            key = 'C01|bitfield|u%s|%s|-' % (op, what)
+            cells.add(key)
+            e = ('un', op, lf)
+            add(obs_value(e, key, None))
+            add(obs_sign(e, key))
+        for op in rng.sample(BINOPS, 6):
+            for tr in rng.sample(ALL, 3):
+                key = 'C01|bitfield|%s|%s|%s' % (op, what, tr)
+                cells.add(key)
+                for _ in range(npairs):
+                    b = V.small(rng, tr) if op in ('<<', '>>') else V.pick(rng, tr)
+                    for e in (('bin', op, lf, b), ('bin', op, b, lf)):
+                        if op in ('<<', '>>') and e[2] is b:
+                            continue
+                        add(obs_value(e, key, None))
+                add(obs_sign(('bin', op, lf, V.pick(rng, tr)), key))
+        key = 'C01|bitfield|?:|%s|-' % what
+        cells.add(key)
+        add(obs_value(('cond', V.pick(rng, 'i32'), lf, V.pick(rng, 'u32')), key, None))
+        add(obs_value(('cond', V.pick(rng, 'i32'), lf, V.pick(rng, 'i8')), key, None))
+        add(obs_sign(('cond', V.pick(rng, 'i32'), lf, V.pick(rng, 'i8')), key))
+    return obs, len(cells)
+
+
+def gen_grid(ctx, V, rng, npairs):
+    obs, cells = gen_bitfield_cells(V, rng, max(1, npairs // 6))
     # binary operators x 81 type pairs
     for op in BINOPS:
         for tl in ALL:
@@ -406,7 +466,9 @@ def run(ctx):
         for j, o in enumerate(chunk):
             oid = k + j
             if o.pre:
-                pre.append(o.pre(oid))
+                d = o.pre(oid)
+                if d not in pre:
+                    pre.append(d)
             body.append(o.code(oid))
             for line in o.expect(oid):
                 exp.append(line)
